@@ -132,7 +132,7 @@ class SpyCursorFlow(SpyFlow):
 
     def mouse_event(self, size, event, button, col, row, focus):
         self.log.append(("mouse_event", self.ident, size[0], event, button, col, row, focus))
-        if button == 1 and event == "mouse press":
+        if button == 1 and event.endswith("mouse press"):
             return self.move_cursor_to_coords(size, col, row)
         return False
 
